@@ -157,13 +157,18 @@ package parse
 //@ func lexInsideTag
 //@   like stateFn
 
+// C01: '-' is the binary operator exactly when the previous token can end an
+// operand (a literal, an identifier or data reference, a closing bracket or
+// parenthesis); in every other position it is a sign or the unary operator.
+//@ pred operandEnd(t itemType) = t == itemNull || t == itemBool || t == itemInteger || t == itemFloat || t == itemString || t == itemIdent || t == itemDollarIdent || t == itemDotIdent || t == itemQuestionDotIdent || t == itemDotIndex || t == itemQuestionDotIndex || t == itemRightBracket || t == itemRightParen
 //@ func lexNegative
-//@   props C05
+//@   props C05 C01
 //@   requires lexerOK(l) && l.pos - 1 >= l.start
 //@   modifies l.pos, l.start, l.width, l.lastEmit
 //@   ensures lexerOK(l) && result != nil
 //@   ensures (l.pos == old(l.pos) && result != lexNumber) || (l.pos == old(l.pos) - 1 && result == lexNumber)
 //@   ensures result == lexNumber || result == lexInsideTag
+//@   ensures[minus-is-binary-iff-after-operand;C01] operandEnd(old(l.lastEmit.typ)) == (result != lexNumber && l.lastEmit.typ == itemSub)
 
 //@ func lexSoyDoc
 //@   props C05
@@ -597,9 +602,13 @@ package parse
 //@     invariant stepOK(t) && old(token.typ) != itemInvalid
 //@     decreases ntoks(t.lex) - cursor(t)
 
+// C01: a tag that starts with any token that can start an expression is an
+// implicit print (it never falls through to the "unexpected token" arm).
+//@ pred firstOfExpr(t itemType) = t == itemIdent || t == itemDollarIdent || t == itemNull || t == itemBool || t == itemFloat || t == itemInteger || t == itemString || t == itemNegate || t == itemNot || t == itemLeftBracket || t == itemLeftParen
 //@ func (*tree).beginTag
 //@   like parserFn
 //@   measure rem(t), 5
+//@   at call (*tree).unexpected#0 assert[first-of-expression-accepted;C01] !firstOfExpr(arg1.typ)
 
 //@ func (*tree).parsePrint
 //@   like parserFn
